@@ -578,7 +578,7 @@ func init() {
 		return false
 	}
 	addCheck(&Check{Flows: []flowOracle{flowExactlyOnce(false), flowResponseVia}, ID: "C02", Level: "model_checking",
-		Rule:   "(inputs) complete product: routing entry (transport x host literal/host-table name x port x received x rport {absent, valueless, numeric, non-numeric} x extra parameters, plus 6 undecodable / missing shapes) x top entry x 0-4 further entries x EVERY layout (all compositions into header lines, full/compact/mixed/upper-case names) x status class x arrival transport x configuration {default, no-received, must-record-route + keep-next-hop-route, two listens entries with opposite received settings} x body {none, 2000 bytes} (the last two crossed with the routing entry, not with the cosmetic dimensions), each on a fresh world, and a second pass feeding all cases of one class into ONE long-lived world; (histories) explicit-state BFS by replay over three concurrent transactions (UDP and TCP user agents, UDP and TCP backends): events {request t, backend answers t with 180 / 200 (repeatable)} in every order to depth 6 (thorough 8), received-support on/off; non-trivial = a Via entry remains after the pop / history longer than one event",
+		Rule:   "(inputs) complete product: routing entry (transport x host literal/host-table name/name only the DNS knows x port x received x rport {absent, valueless, numeric, non-numeric} x extra parameters, plus 6 undecodable / missing shapes) x top entry x 0-4 further entries x EVERY layout (all compositions into header lines, full/compact/mixed/upper-case names) x status class x arrival transport x configuration {default, no-received, must-record-route + keep-next-hop-route, two listens entries with opposite received settings} x body {none, 2000 bytes} (the last two crossed with the routing entry, not with the cosmetic dimensions), each on a fresh world, and a second pass feeding all cases of one class into ONE long-lived world; (histories) explicit-state BFS by replay over three concurrent transactions (UDP and TCP user agents, UDP and TCP backends): events {request t, backend answers t with 180 / 200 (repeatable)} in every order to depth 6 (thorough 8), received-support on/off; non-trivial = a Via entry remains after the pop / history longer than one event",
 		Assume: []string{"sent-by hosts are IPv4 literals or host-table names (stated domain); undecodable shapes only in the two entries the proxy must consult"},
 		Run: func(c *Ctx) {
 			c02Spec.Run(c)
